@@ -12,13 +12,14 @@ class Kernel:
     def __init__(self, pl=None):
         self.pl = pl or P.Pipeline()
         self.m = self.pl.m; self.ex = self.m.ex
-    def explore(self, text, lit_kinds=None, ops=None, tys=None, with_ir=False, max_paths=4000, files=None):
+    def explore(self, text, lit_kinds=None, ops=None, tys=None, with_ir=False, max_paths=4000, files=None, optional_annotations=False):
         """returns dict(paths=[(pc, outcome dict)], sels={name: (var, domain)}, stats)"""
         pl = self.pl; ex = self.ex
         ast0, err = pl.parse_native(dict({"main.sy": PRELUDE + text}, **(files or {})), no_std=True)
         if ast0 is None: return {"error": "template does not parse natively: " + (err or "")[:400]}
-        exp = X.Expander(pl, lit_kinds, ops, tys)
+        exp = X.Expander(pl, lit_kinds, ops, tys, optional_annotations)
         ast_t = exp.walk(ast0)
+        if optional_annotations: ast_t = exp.walk_annotations(ast_t)
         ns0 = pl.namespaces(ast0)
         fns = self.m.fns
         SV = M.QENUMS[("name_resolution", "Statement")]
